@@ -171,6 +171,27 @@ struct Progress {
     done: AtomicBool,
 }
 
+/// compact form of a history (the minimal failing history is part of the reported fingerprint)
+fn witness(h: &[Act]) -> String {
+    use chan::api::Op::*;
+    let o = |op: &chan::api::Op| match op {
+        TrySend => "ts", Send => "s", TrySendBatch => "tsb", TrySendBatchMut => "tsbm", SendBatch => "sb", SendBatchMut => "sbm", SendFut => "sf", SendBatchFut => "sbf",
+        TryRecv => "tr", Recv => "r", RecvTimeout0 => "rt", TryRecvBatch => "trb", TryRecvBatchMut => "trbm", RecvBatch => "rb", RecvBatchMut => "rbm", RecvFut => "rf", RecvBatchFut => "rbf",
+        PollNext => "pn", Close => "x", Clone => "c", Convert => "~", Len => "len",
+    };
+    h.iter()
+        .map(|a| match a {
+            Act::Tx(i, op) => format!("S{}.{}", i, o(op)),
+            Act::Rx(i, op) => format!("R{}.{}", i, o(op)),
+            Act::DropTx(i) => format!("S{}.d", i),
+            Act::DropRx(i) => format!("R{}.d", i),
+            Act::PollTask(t, i) => format!("{}{}.poll", if *t { "S" } else { "R" }, i),
+            Act::DropFut(i) => format!("f{}.d", i),
+        })
+        .collect::<Vec<_>>()
+        .join(",")
+}
+
 /// run one configuration in its own thread with a hang watchdog; histories that hang are recorded
 /// as violations, added to a skip list, and the configuration is restarted (at most 3 times)
 fn run_cfg(cfg: &Cfg, skip0: &BTreeSet<Vec<Act>>) -> (Scenario, Vec<Violation>) {
@@ -239,7 +260,7 @@ fn run_cfg(cfg: &Cfg, skip0: &BTreeSet<Vec<Act>>) -> (Scenario, Vec<Violation>) 
                     let (log, _) = replay(cfg, &hist);
                     viol.push(Violation {
                         property: f.prop.clone(),
-                        fingerprint: f.fingerprint.clone(),
+                        fingerprint: format!("{}@{}", f.fingerprint, witness(&hist)),
                         message: format!("{} | history: {:?}", f.message, log),
                         scenario: cfg.name(),
                         replay: serde_json::json!({"kind":"chan","cfg": cfg, "history": hist}),
@@ -284,7 +305,7 @@ fn run_cfg(cfg: &Cfg, skip0: &BTreeSet<Vec<Act>>) -> (Scenario, Vec<Violation>) 
                 };
                 hang_viol.push(Violation {
                     property: "C05".into(),
-                    fingerprint: format!("seqx/{}/C05.blocked_while_enabled/{}", cfg.flavour.name(), opk),
+                    fingerprint: format!("seqx/{}/C05.blocked_while_enabled/{}@{}", cfg.flavour.name(), opk, witness(&hist)),
                     message: format!("single-threaded history never returned (last action {}): an operation the reference model says cannot wait blocked or spun forever; history {:?}", last_op, hist),
                     scenario: cfg.name(),
                     replay: serde_json::json!({"kind":"chan","cfg": cfg, "history": hist, "hang": true}),
@@ -355,7 +376,7 @@ fn run_cfg_in_child(cfg: &Cfg) -> (Scenario, Vec<Violation>) {
         };
         crash_viol.push(Violation {
             property: "C09".into(),
-            fingerprint: format!("seqx/{}/C09.memory_error/{}", cfg.flavour.name(), opk),
+            fingerprint: format!("seqx/{}/C09.memory_error/{}@{}", cfg.flavour.name(), opk, witness(&hist)),
             message: format!("the process died with a memory error while executing (or tearing down) this history: {} | history {:?}", summary.trim(), hist),
             scenario: cfg.name(),
             replay: serde_json::json!({"kind":"chan","cfg": cfg, "history": hist, "crash": true}),
@@ -529,12 +550,22 @@ fn main() {
             let mut rep = Report::new("seqx", &tier);
             let mut rs = std::mem::take(&mut *results.lock().unwrap());
             rs.sort_by(|a, b| a.0.name.cmp(&b.0.name));
+            // one finding per class (flavour / rule / operation): the minimal witness over all scenarios
+            let mut best: std::collections::BTreeMap<String, Violation> = std::collections::BTreeMap::new();
             for (sc, vs) in rs {
                 rep.scenarios.push(sc);
                 for v in vs {
-                    rep.push_violation(v);
+                    let class = v.fingerprint.split('@').next().unwrap().to_string();
+                    let key = |x: &Violation| (x.fingerprint.split('@').nth(1).unwrap_or("").matches(',').count(), x.scenario.clone(), x.fingerprint.clone());
+                    match best.get(&class) {
+                        Some(old) if key(old) <= key(&v) => {}
+                        _ => {
+                            best.insert(class, v);
+                        }
+                    }
                 }
             }
+            rep.violations = best.into_values().collect();
             rep.violations.sort_by(|a, b| a.fingerprint.cmp(&b.fingerprint));
             rep.write(&out);
             // stuck worker threads (hangs) would keep the process alive
